@@ -25,15 +25,11 @@ def run(ctx):
     pe, nn_e, ne_e = vf.path_cover(ideal.edges, init_pred=init)
     for p in pe:
         p["tag"] = "edge"
-    ph, nn_h, ne_h = vf.path_cover(histr.edges, init_pred=init)
-    for p in ph:
-        p["tag"] = "hist"
+    ph, nn_h, ne_h = E.tree_paths(histr.edges, init, "hist")
     paths += pe + ph
     states, trans = ideal.distinct + histr.distinct, ne_e + ne_h
     for x in extra:
-        px, nx, ex = vf.path_cover(x.edges, init_pred=init)
-        for p in px:
-            p["tag"] = "hist"
+        px, nx, ex = E.tree_paths(x.edges, init, "hist")
         paths += px
         states += x.distinct
         trans += ex
